@@ -281,6 +281,14 @@ def check(repo: Repo, run: Run) -> None:
     ev = repo.mod("evaluation")
     g = grammar(repo)
     check_tokenizer(repo, run)
+    # L8: the constructors both engines build literals with do not replace a falsy spelled value (0, 0u, 0.0, "", b"")
+    # by a default (rule shared with C10.R7)
+    from .c10 import check_absent_vs_falsy
+
+    # L9: the text arms of the integer constructors (decimal, 0x / -0x spellings) are range-checked and use the right
+    # radix / prefix length (instances shared with C10.R1 / C10.R3)
+    run.borrow(repo, "C10", "C07.L9", lambda o: o["rule"] in ("C10.R1", "C10.R3") and any(k in o["key"] for k in ("str", "hex", "[other]")), 4)
+    run.floor("C07.L8", check_absent_vs_falsy(repo, run, "C07.L8", ("IntType", "UintType", "DoubleType", "StringType", "BytesType")), 5)
     # L2 radix dispatch ----------------------------------------------------
     def find_expand(fname: str):
         """The function that decodes one escape match: nested in celstr/celbytes or a module-level helper they use."""
